@@ -5,6 +5,7 @@
 package configuration
 
 import (
+	"bytes"
 	"context"
 	"fmt"
 	"github.com/atomix/go-sdk/pkg/primitive"
@@ -563,7 +564,9 @@ func (s *configurationStore) store(ctx context.Context, store _map.Map[string, *
 			}
 		} else if _, ok := prunedValues[pv.Path]; !ok {
 			transaction.Remove(pv.Path, _map.IfVersion(entry.Version))
-		} else if pv.Index != entry.Value.Index {
+		} else if pv.Index != entry.Value.Index || pv.Deleted != entry.Value.Deleted || !bytes.Equal(pv.Value.Bytes, entry.Value.Value.Bytes) ||
+			pv.Value.Type != entry.Value.Value.Type {
+			// the v3 controllers do not stamp path values with a transaction index: compare the value itself too
 			transaction.Update(pv.Path, &pv, _map.IfVersion(entry.Version))
 		}
 	}
